@@ -50,7 +50,7 @@ def host_values(kind):
     ilist = ('intlist', lambda: [3, 1, 2, 2])
     slist = ('strlist', lambda: ['b', 'a', 'c'])
     plist = ('pairlist', lambda: [['a', 1], ['b', 2]])
-    dct = ('dict', lambda: {'a': 1, 'b': [1, 2], 'c': {'d': [7]}})
+    dct = ('dict', lambda: {'a': 1, 'b': [1, 2], 'c': {'d': [7]}, 1: 'one', 2: [2], 3: 3})   # keys the corpus asks for: 'a', 1, 2, 3
     st = ('set', lambda: {1, 2, 3})
     llist = ('listlist', lambda: [[1, 2], [3], []])
     rows = ('rows-subclass', lambda: Rows([[1, 2], [3]]))
@@ -163,7 +163,7 @@ def scan_cases(rec, tier):
     if not tuples:
         return
     if tier == 'quick':
-        tuples = tuples[:1]
+        tuples = tuples[:1] + [t for t in tuples[1:] if t.var][:1]     # the base tuple and one with *args
     if rec.syntax != 'name':
         forms = ('op',)
     else:
